@@ -157,10 +157,6 @@ impl<T> Store<T> {
         self.entries.len()
     }
 
-    pub(super) fn capacity(&self) -> usize {
-        self.entries.capacity()
-    }
-
     pub(super) fn reserve_exact(&mut self, additional: usize) {
         self.entries.reserve_exact(additional);
     }
